@@ -158,9 +158,7 @@ def is_decode(t):
     """<A as Codec>::unsafe_from_bits(<&SeqSlice<A> as Into<u8>>::into(X)) -> X"""
     if isinstance(t, tuple) and t[0] == "call" and t[1] == "<A as codec::Codec>::unsafe_from_bits":
         a = t[2][0]
-        if isinstance(a, tuple) and a[0] == "call" and a[1] in (
-                "<&seq::slice::SeqSlice<A> as std::convert::Into<u8>>::into",
-                "seq::slice::<impl std::convert::From<&seq::slice::SeqSlice<A>> for u8>::from"):
+        if isinstance(a, tuple) and a[0] == "call" and a[1] == "CONV<&seq::slice::SeqSlice<A> -> u8>":
             return a[2][0]
     return None
 
